@@ -9,6 +9,7 @@ import ast
 import sys
 import io
 import threading
+import time
 import types
 from itertools import zip_longest
 from unittest.mock import patch
@@ -572,8 +573,10 @@ class Sandbox:
         # And do the patches
         self._start_patches(
             patch.dict('sys.modules', overridden_modules),
-            patch('sys.stdout', self._current_stdout[-1]),
-            patch('time.sleep', return_value=None),
+            # The interpreter's own modules, not whatever an instructor's
+            # mock_module('time', ...) / ('sys', ...) put into sys.modules
+            patch.object(sys, 'stdout', self._current_stdout[-1]),
+            patch.object(time, 'sleep', return_value=None),
         )
 
     def _stop_mocking(self, context: SandboxContext):
